@@ -1,9 +1,9 @@
 #!/bin/bash
 # tools/seedmatrix_par.sh [tier] [lanes]: the whole seed matrix (every kept seeded change against the check(s) of its property), several
 # seeds at a time, each lane in its own scratch worktree of /repo and with its own scratch evidence root; rewrites seeded/RESULTS.md.
-TIER="${1:-quick}"; LANES="${2:-4}"
-OUT=/verif/seeded/RESULTS.md; TMP=/dev/shm/seedmatrix-par; rm -rf $TMP; mkdir -p $TMP
-ls -d /verif/seeded/C*/ | xargs -n1 basename > $TMP/all
+TIER="${1:-quick}"; LANES="${2:-4}"; PAT="${3:-C*}"; OUTFILE="${4:-/verif/seeded/RESULTS.md}"
+OUT=$OUTFILE; TMP=/dev/shm/seedmatrix-par; rm -rf $TMP; mkdir -p $TMP
+ls -d /verif/seeded/$PAT/ | xargs -n1 basename > $TMP/all
 lane() {
   L=$1; WT=/tmp/mut/wt/matrix$L; ROOT=$TMP/root$L
   git -C /repo worktree remove --force $WT >/dev/null 2>&1; rm -rf $WT
